@@ -88,7 +88,12 @@
 //!              `assert!`; `if let Some(x) = map.get_mut(&k) {..} else ..` (alias); a `Result` call inspected by the
 //!              caller (`if let Err(e) = f(..)`, `match f(..) { Ok(x) => .., Err(e) => .. }`: `Exec.attempt`, the `&mut`
 //!              state is written back after `Ok` AND after `Err`)
-//!   not supported: `loop`, valued `break`, closures, generics, traits, signed integers, floats,
+//!              manifest `TypeAlias` (`type Payload = Vec<u8>`); `let x = map.get_mut(&k).unwrap()` (alias);
+//!              `&mut` integer arguments of a `&mut self` method call on a place / alias (receiver and places written
+//!              back, also through `Exec.attempt`); `v.append(&mut tmp)`; `xs.iter().map(|pat| e).collect()` (pure
+//!              closure → `List.map`), `last()` / `first()`; `OctetsMut::with_slice(&mut local_buffer)` (the buffer
+//!              follows the cursor's writes); value-position `match` / `if` whose arms assign outer variables
+//!   not supported: `loop`, valued `break`, closures other than the pure `map` / `or_insert_with` ones, generics, traits, signed integers, floats,
 //!              references stored in data, `ref mut`, `&mut` parameters other than `self`, unsigned integers and the
 //!              octets / io cursors.
 
@@ -272,6 +277,7 @@ fn sel_text(s: &manifest::Sel) -> String {
     match s {
         Const(n) => format!("const {}", n),
         Struct(n) => format!("struct {}", n),
+        TypeAlias(n) => format!("type {}", n),
         StructView(n, f) => format!("struct {} (view: {})", n, f.join(", ")),
         StructIgnore(n, f) => format!("struct {} (ignored fields: {})", n, f.join(", ")),
         Enum(n) => format!("enum {}", n),
